@@ -29,6 +29,8 @@ PID = "C15"
 SRC = ["src/Core/Random.cpp", "src/Algorithms/LinearRegression.cpp", "src/Algorithms/PCA.cpp", "src/Algorithms/LDA.cpp",
        "src/Algorithms/FisherLDA.cpp", "src/Algorithms/NormalizeComponentsWhitening.cpp"]
 TOL = 1e-9
+EPSM = Fr(1, 2 ** 52)          # std::numeric_limits<double>::epsilon()
+CUT = Fr(1e-15)                # the double 1.e-15 of PCA::encoder / decoder
 
 # ------------------------------------------------------------------------------------------------ numbers
 def fr(t):
@@ -76,7 +78,7 @@ def parse_out(o):
     d = {}
     for t in o.split()[1:]:
         k, _, v = t.partition("=")
-        if k in ("rows", "erows", "vcols"): d[k] = int(v)
+        if k in ("rows", "erows", "vcols", "on"): d[k] = int(v)
         else: d[k] = [hexf(x) for x in v.split(",")] if v else []
     return d
 
@@ -100,7 +102,9 @@ def model_line(c, o):
     elif o is None or not allfinite(o): return None
     elif k == "L": par = [fl(o["mat"]), fl(o["off"])]
     elif k in ("W", "Z"): par = [str(o["rows"]), fl(o["mat"]), fl(o["off"])]
-    elif k == "P": par = [str(o["vcols"]), fl(o["ev"]), fl(o["evec"])]
+    elif k == "P":
+        par = [str(o["vcols"]), fl(o["ev"]), fl(o["evec"])]
+        if "on" in o and c["n"] >= 2: par += [str(o["on"]), fl(o["oD"]), fl(o["oU"]), binq(EPSM), binq(CUT)]
     elif k in ("D", "DW"): par = [fl(o["mat"])]
     return " | ".join(out) + (" || " + " | ".join(par) if par else "")
 
@@ -304,6 +308,24 @@ def mon_line(c, o):
             if any(abs(a - ev[i] * b) > 1e-9 * max(ev0, 1e-300) for a, b in zip(Cv, vi)):
                 zero = ev[i] <= 1e-9 * ev0
                 B("PCA::setData:%s:%s" % (br, "direction-of-zero-eigenvalue" if zero else "eigen-equation"), "C v != variance * v for direction %d (variance %r, %s)" % (i, ev[i], shape))
+        # contract of the eigen-decomposition ORACLE on the values it returned (hypothesis of C15_pca_setdata_*): exact matrix of the
+        # branch taken (covariance resp. X0 X0^T / n), orthogonality (both products), eigen-equation, order
+        if "on" in o and all(finite(x) for x in o["oD"] + o["oU"]):
+            on = o["on"]; oU = mat(o["oU"], on, on); oD = o["oD"]
+            X0 = [[x - mm_ for x, mm_ in zip(r, m)] for r in rows]
+            Sx = [[float(sum(a * b for a, b in zip(X0[p], X0[q])) / n) for q in range(n)] for p in range(n)] if small else Cf
+            sc = max([abs(x) for x in oD] + [1e-300])
+            if on != (n if small else d): B("PCA::oracle:shape", "oracle matrix is %d x %d" % (on, on))
+            else:
+                for i in range(on):
+                    for l in range(on):
+                        g1 = sum(oU[a][i] * oU[a][l] for a in range(on)); g2 = sum(oU[i][a] * oU[l][a] for a in range(on))
+                        if abs(g1 - (i == l)) > 1e-9 or abs(g2 - (i == l)) > 1e-9:
+                            B("PCA::oracle:contract:orthogonal", "symm_eigenvalue_decomposition: Q is not orthogonal (%d,%d): %r / %r (%s)" % (i, l, g1, g2, shape))
+                    Su = mv(Sx, [oU[a][i] for a in range(on)])
+                    if any(abs(Su[a] - oD[i] * oU[a][i]) > 1e-9 * sc for a in range(on)):
+                        B("PCA::oracle:contract:eigen-equation", "symm_eigenvalue_decomposition: S q_%d != D_%d q_%d (%s)" % (i, i, i, shape))
+                if any(oD[i] < oD[i + 1] for i in range(on - 1)): B("PCA::oracle:contract:order", "symm_eigenvalue_decomposition: eigenvalues not sorted: %s" % oD)
         if bad: return bad
         er = o["erows"]
         if not all(finite(x) for key in ("encA", "encb", "decA", "decb", "trA", "trb") for x in o[key]):
@@ -505,6 +527,37 @@ def compare(c, o, mo):
                 if abs(float(md["gram"][i * vc + l]) - (1.0 if i == l else 0.0)) > 1e-9: D("model: gram(%d,%d) = %r" % (i, l, float(md["gram"][i * vc + l])))
             for j in range(d):
                 if abs(float(md["eigres"][i * d + j])) > 1e-9 * ev0: D("model: eigen residual (%d,%d) = %.3e" % (i, j, float(md["eigres"][i * d + j])))
+        if "mev" in md:
+            # C15PcaModel.pca_setdata / pca_encoder / pca_decoder with the recorded answer of the decomposition as oracle
+            on = o["on"]; small = d > n; wh = c["args"][0] == "1"
+            if len(md["mev"]) != len(o["ev"]) or len(md["mevec"]) != len(o["evec"]): D("setData model: shapes differ"); return dis
+            for i in range(vc):
+                if not exact(o["ev"][i], md["mev"][i]): D("setData model: eigenvalue %d model %r impl %r" % (i, float(md["mev"][i]), o["ev"][i]))
+            MV = mat(md["mevec"], d, vc); V = mat(o["evec"], d, vc); tied = False
+            for i in range(vc):
+                if small and md["mev"][i] == 0:
+                    # completion of the basis: the start vector is the arg-max of the residuals; a tie decided by rounding is not a difference
+                    res = sorted((1.0 - sum(V[j][k] ** 2 for k in range(i)) for j in range(d)), reverse=True)
+                    if len(res) > 1 and res[0] - res[1] < 1e-9: tied = True
+                if tied: c["_pca_tied"] = True; break
+                for j in range(d):
+                    ok = exact(V[j][i], MV[j][i]) if not small else abs(V[j][i] - float(MV[j][i])) <= 1e-10
+                    if not ok: D("setData model: eigenvector entry (%d,%d) model %r impl %r" % (j, i, float(MV[j][i]), V[j][i])); break
+            if not tied and not dis:
+                er = o["erows"]
+                for key, r_, c_ in (("encA", er, d), ("decA", d, er)):
+                    if len(md[key]) != len(o[key]): D("%s model: shape" % key); continue
+                    sc = max([abs(x) for x in o[key]] + [1.0])
+                    for t, (x, y) in enumerate(zip(o[key], md[key])):
+                        ok = exact(x, y) if not (wh or small) else abs(x - float(y)) <= 1e-10 * sc
+                        if not ok: D("%s model: entry %d model %r impl %r" % (key, t, float(y), x)); break
+                if len(md["encb"]) != len(o["encb"]): D("encb model: shape")
+                else:
+                    sc = max([abs(x) for x in o["encA"]] + [1.0]) * max([abs(float(x)) for x in md["mean"]] + [1.0]) * d
+                    for t, (x, y) in enumerate(zip(o["encb"], md["encb"])):
+                        if abs(x - float(y)) > 1e-10 * sc: D("encb model: entry %d model %r impl %r" % (t, float(y), x)); break
+                for t, (x, y) in enumerate(zip(o["decb"], md["decb"])):
+                    if not exact(x, y): D("decb model: entry %d" % t); break
     elif k in ("D", "DW"):
         if "_lda" not in c or not allfinite(o): return []
         mc, Cp, pr = c["_lda"]; K = c["K"]
